@@ -126,6 +126,43 @@ pub fn carry_cells(depth: u8, cross: bool) -> Vec<u64> {
   v
 }
 
+/// Half-word sweeps: EVERY value of the low 16 bits of one coordinate (the other coordinate and the
+/// upper bits being fixed, generic), and every value of the upper bits (low half-word fixed), for
+/// i then for j, in an equatorial and in a polar base cell.  Table-driven or mask-driven code acts
+/// on bytes / half-words: a wrong table entry, mask or carry test shows on one specific pattern
+/// (e.g. 0xFEFF) that no structured class (all ones, powers of two, carry chains) contains.
+pub fn halfword_sweep_cells(depth: u8) -> Vec<u64> {
+  let n = 1u64 << depth;
+  let mut v = vec![];
+  if depth < 9 {
+    return v;
+  }
+  let lo_bits = (depth as u32).min(16);
+  for &(d0h, seed) in &[(5u8, 0x51234u64 * 7 + 3), (1, 0x2C9A5 * 5 + 2)] {
+    // the fixed (generic, interior) value of the other coordinate, and of the upper bits
+    let other = ((seed & (n - 1)) | 1).max(1).min(n - 2) as u32;
+    let hi_fixed = if depth > 16 { (seed >> 3) & ((n >> 16) - 1) } else { 0 };
+    for low in 0..(1u64 << lo_bits) {
+      let c = (hi_fixed << 16) | low;
+      if c < n {
+        v.push(encode(depth, d0h, c as u32, other));
+        v.push(encode(depth, d0h, other, c as u32));
+      }
+    }
+    if depth > 16 {
+      let low_fixed = 0xA7C3u64;
+      for hi in 0..(n >> 16) {
+        let c = ((hi << 16) | low_fixed) as u32;
+        v.push(encode(depth, d0h, c, other));
+        v.push(encode(depth, d0h, other, c));
+      }
+    }
+  }
+  v.sort();
+  v.dedup();
+  v
+}
+
 /// N points spread over the whole sphere (Fibonacci lattice): generic positions, away from
 /// every border class.
 pub fn fibonacci_points(n: usize) -> Vec<(f64, f64)> {
